@@ -192,6 +192,9 @@ func importFields(c *Ctx, m string) {
 				}
 				st = x
 			}
+			if os.Getenv("MCDEBUG") == "impf" {
+				fmt.Fprintln(os.Stderr, "IMPF", m, in.Eff.Section, st.Op, st.String())
+			}
 			if st.Op != "struct" {
 				// the whole record is stored as imported (a literal copying every like-named field collapses to its source)
 				n++
@@ -218,6 +221,41 @@ func importFields(c *Ctx, m string) {
 				leaf := v
 				for leaf.Op == "conv" {
 					leaf = leaf.Args[0]
+				}
+				// a field read off a record made by a constructor of the types package (`wc, _ := types.NewX(a, b, ...); wc.F`) is
+				// what the constructor puts into F: arguments handed over in another order end up in each other's fields
+				for i := 0; i < 3 && leaf.Op == "field" && len(leaf.Args) == 1; i++ {
+					call, idx := leaf.Args[0], -1
+					if call.Op == "res" && len(call.Args) == 1 {
+						fmt.Sscan(call.Name, &idx)
+						call = call.Args[0]
+					}
+					if call.Op != "call" || call.Callee == nil || reachesEffect(c, call.Callee, func(x ir.Effect) bool { return strings.HasPrefix(x.Kind, "Store") }) {
+						break
+					}
+					x := w.Inline(call)
+					if x != nil && idx >= 0 {
+						if x.Op != "tuple" || idx >= len(x.Args) {
+							break
+						}
+						x = x.Args[idx]
+					}
+					if x == nil || x.Op != "struct" {
+						break
+					}
+					var got *ir.Expr
+					for j, fname := range x.Fields {
+						if fname == leaf.Name {
+							got = x.Args[j]
+						}
+					}
+					if got == nil {
+						break
+					}
+					leaf = got
+					for leaf.Op == "conv" {
+						leaf = leaf.Args[0]
+					}
 				}
 				if leaf.Op == "field" && (leaf.Name == f || leaf.Name == rename[f]) {
 					ok = !leaf.Any(func(x *ir.Expr) bool { return x.Op == "state" })
@@ -773,6 +811,11 @@ func builtFields(c *Ctx, a retAlt) (map[string]*ir.Expr, bool) {
 // counter section (not a constant, not the registrations), params from the params section.
 func exportGenesisArgs(c *Ctx, rule string, onlyStartID bool) {
 	w, r := c.W, c.R
+	// rule "A7.export-fields|params": the Params field alone (C16: a voted value stays in force across an export/import)
+	onlyParams := false
+	if rule == "A7.export-fields|params" {
+		rule, onlyParams = "A7.export-fields", true
+	}
 	for _, m := range []string{"wrkchain", "beacon", "stream"} {
 		secHigh := ""
 		for _, rm := range recMods {
@@ -841,8 +884,24 @@ func exportGenesisArgs(c *Ctx, rule string, onlyStartID bool) {
 					switch {
 					case field == "Params" && !onlyStartID:
 						n++
-						r.Require(secs[secParams(m)] && len(secs) == 1, "A7.export-fields", m+"|GenesisState.Params"+suffix, pos(c, a.Pos.In), "exported Params are the stored module params", e.String())
-					case strings.HasPrefix(field, "Starting"):
+						okp := secs[secParams(m)] && len(secs) == 1
+						// ... on every way the state is built: no alternative that replaces the stored params by something else
+						// (a constructor that "falls back to the defaults" for a stored value it takes for unset)
+						var palts []*ir.Expr
+						for _, ra := range raw.Alts() {
+							palts = append(palts, w.Expand(ra, 3).Alts()...)
+						}
+						for _, alt := range append(palts, e.Alts()...) {
+							// (the zero value is what the getter hands back when nothing is stored: nothing replaced)
+							if alt.Op != "zero" && !alt.Any(func(x *ir.Expr) bool { return x.Op == "state" && x.Name == secParams(m) }) {
+								okp = false
+							}
+						}
+						if os.Getenv("MCDEBUG") == "expp" {
+							fmt.Fprintln(os.Stderr, "EXPP", m, raw.String(), "=>", e.String())
+						}
+						r.Require(okp, "A7.export-fields", m+"|GenesisState.Params"+suffix, pos(c, a.Pos.In), "exported Params are the stored module params, on every way the exported state is built", e.String())
+					case strings.HasPrefix(field, "Starting") && !onlyParams:
 						n++
 						okv := secs[secHigh] && len(secs) == 1
 						for _, alt := range e.Alts() {
@@ -858,6 +917,9 @@ func exportGenesisArgs(c *Ctx, rule string, onlyStartID bool) {
 		fl := map[string]int{"wrkchain": 2, "beacon": 2, "stream": 1}
 		if onlyStartID {
 			fl = map[string]int{"wrkchain": 1, "beacon": 1, "stream": 0}
+		}
+		if onlyParams {
+			fl = map[string]int{"wrkchain": 1, "beacon": 1, "stream": 1}
 		}
 		r.Floor("exported genesis state fields checked on the "+m+" export route", n, fl[m])
 	}
